@@ -30,6 +30,11 @@ def rotmat(rx, ry, rz):
 def moved(ant, R, t, s=1.0):
     a = dict(ant)
     a['wires'] = [dict(w, p0=list(s * (R @ np.array(w['p0']) + t)), p1=list(s * (R @ np.array(w['p1']) + t)), r=w['r'] * s) for w in ant['wires']]
+    for w in a['wires']:
+        # taper limits are lengths: "all dimensions are multiplied by s"
+        for k in ('tmax', 'tmin'):
+            if w.get(k) is not None:
+                w[k] = w[k] * s
     a['f'] = ant['f'] / s
     a['lam'] = ant['lam'] * s
     a['seg'] = ant['seg'] * s
